@@ -236,6 +236,9 @@ async def check_time_conditions(ctx, case):
         ctx.count("is_valid_expression_calls_with_time_conditions")
 
         async def go():
+            if as_tree == "resolved":
+                # the resolver's own product when asked to leave the time conditions alone
+                return await is_valid_expression(await parse_expression_including_unresolved_subexpressions(s, replace_time_conditions=False), _cer_var.set)
             if as_tree:
                 return await is_valid_expression(parse_ahb_expression_to_single_requirement_indicator_expressions(s), _cer_var.set)
             return await is_valid_expression(s, _cer_var.set)
@@ -243,7 +246,7 @@ async def check_time_conditions(ctx, case):
         out = await sched.run_under(None, go)
     finally:
         E.install()
-    how = "the tree of the AHB expression parser for " if as_tree else ""
+    how = "the resolver's tree (replace_time_conditions=False) for " if as_tree == "resolved" else "the tree of the AHB expression parser for " if as_tree else ""
     if out[0] != "ok":
         ctx.violation(f"is-valid-raises-{type(out[1]).__name__}", f"is_valid_expression({how}{s!r}) {describe(out)[:300]}")
         return
@@ -306,7 +309,7 @@ async def run(ctx):
     ctx.note("small_scope", "every expression of the evaluation domain (valid and invalid) with up to %d leaves over 2 requirement keys, 1 hint, 2 format constraints, under all 3^k assignments" % (3 if ctx.quick else 4))
     if ctx.shard == 0:
         for s, invalid in TIME_CONDITION_CASES:
-            for as_tree in (False, True):
+            for as_tree in (False, True, "resolved"):
                 await check_time_conditions(ctx, {"s": s, "invalid": invalid, "as_tree": as_tree})
     for i in range(ctx.budget(200, 16_000)):
         case = gen_ahb_case(rng, max_keys=5)
